@@ -26,7 +26,7 @@ from sim.props.ahbcommon import (
 )
 from sim.props.common import LIVENESS_ERRORS, base_verdict, clone, fail, is_exception, liveness_verdict, strip_msg
 from sim.runner import pristine
-from sim.world import run_requests
+from sim.world import describe_exception, run_requests
 
 PROP_ID = "C15"
 LEVEL = "exploration"
@@ -61,7 +61,7 @@ async def _alone(sim, request):
             except (KeyboardInterrupt, SystemExit):
                 raise
             except BaseException as exc:  # pylint:disable=broad-except
-                out[f"{position}|{status}"] = {"exc": type(exc).__name__}
+                out[f"{position}|{status}"] = describe_exception(exc)
     return Pre(out)
 
 
